@@ -416,6 +416,12 @@ def _classify_handler(fv: FuncView, h: ast.ExceptHandler) -> str:
         for s in [x for b in h.body for x in ast.walk(b) if isinstance(x, ast.stmt)]:
             if isinstance(s, ast.Return) and s.value is not None and mentions(s.value):
                 return "exception kept as value"
+            if isinstance(s, ast.Expr) and isinstance(s.value, ast.Call) and isinstance(s.value.func, ast.Attribute) and s.value.func.attr in ("append", "extend", "insert") \
+                    and any(mentions(a) for a in s.value.args):
+                # stored into a collection that outlives the handler (read after it)
+                coll = unparse(s.value.func.value)
+                if any(isinstance(n, ast.Name) and n.id == coll and isinstance(n.ctx, ast.Load) and not contains(h, n) for n in walk_no_nested(fv.node)):
+                    return "exception kept as value"
             if isinstance(s, ast.Assign) and mentions(s.value) and isinstance(s.targets[0], ast.Name):
                 tgt = s.targets[0].id
                 # the local must be used after the handler (appended / returned)
